@@ -18,4 +18,12 @@ META = {
                 note=STD_NOTE),
     "C13": dict(text="The contract store advertises partitions whose borders are Encode(name, symbolic revision); the real scan/adjustPartitionsBorders/worker/receiver code (worker goroutines interpreted) must give the same unlimited list, count and streamed range as the unpartitioned reference, each batch naming the read revision and exactly one terminator.",
                 note=STD_NOTE),
+    "C02": dict(text="Three harnesses: the real naiveTSO under all interleavings of 2 Deal and 1 Commit (symbolic counters) for uniqueness and monotonicity; the real Get/List paths issued while the sequencer is held at a gate (stored but unreported write) for header >= data; and the 2-client harness of C01 for uniqueness, real-time order and per-key monotonicity of the revisions clients see.",
+                note=STD_NOTE),
+    "C04": dict(text="Two clients and the real sequencer goroutine run as interpreted threads over the contract store with nondeterministic commit faults; a wrapper on the revision generator asserts at every advance of the readable revision that no storage transaction with a revision at or below it is still open (safety), and at quiescence the readable revision equals the highest revision dealt and a later write is readable (progress).",
+                note=STD_NOTE),
+    "C06": dict(text="Direct bounded check of the list-then-watch contract on the real code: list at R, watch from R+1, symbolic further writes and an optional compaction, then the delivered events are folded over the list result and compared with the list at the later revision and with the reference model. The lemmas it composes (C03, C04, C05, C07, C08) are separate checks.",
+                note=STD_NOTE),
+    "C09": dict(text="A commit is answered 'outcome unknown' in both variants by the contract store; the real write path, sequencer, retry queue and repair loop (ticker fired by the harness, elapsed time symbolic) run as interpreted threads; further symbolic writes, a compaction attempt and a fault on the repair write are interposed; z3 decides the client-visible error class, the compaction cap, progress of the readable revision and convergence of store and watch stream.",
+                note=STD_NOTE + " Natively the repair loop runs on real time (intervals shortened by the in-package harness)."),
 }
